@@ -58,6 +58,11 @@ CLAIMED = {
    note="Assumed: strict weak order of float32 '<' on non-NaN values (NaN-free and non-nil items are queue invariants, pushed to callers as preconditions); multiset equality is carried as 'only Swap writes' + exact Push/Pop positions, the permutation argument itself is not machine-checked.",
    tech="contract-based deductive verification of real code incl. the container/heap dependency; SMT with quantified invariants",
    ref="DESIGN.md §4 C19"),
+ "C20": dict(
+   text="Proof of the state-machine clauses (unbounded): ProposeJoin proposes an AddNode change carrying exactly the announced id and address (ProposeLeave: RemoveNode with the id); applying it on the zero group lists the node under exactly string(Context) / unlists it, every other group leaves the book untouched, and ApplyConfChange is reached exactly once; Conn.AddNode/RemoveNode/Nodes/NodeIds against the finite-map view of the address book (announced address wins, other entries untouched, Nodes returns a fresh copy). The snapshot clause (a member restoring a compacted zero-group snapshot recovers the addresses) is checked as 'snapshot() consults the address book' and is a KNOWN FINDING on the current tree.",
+   note="Not decided: 'eventually lists' and behaviour under message loss (liveness, distributed). tryJoin / NodesManager are not under contract. []byte<->string conversions are uninterpreted with the round-trip axiom string([]byte(s)) == s.",
+   tech="contract-based deductive verification (map view of the address book, hooks on the proposed configuration change), SMT",
+   ref="DESIGN.md §4 C20"),
 }
 
 NA = {
